@@ -36,16 +36,58 @@ func DefaultComparePreRelease[T1, T2 constraint.ParserInput](a T1, b T2) int {
 
 func comparePreRelease[T1, T2 constraint.ParserInput](shorter T1, longer T2) int {
 	s, l := string(shorter), string(longer)
-	longerRunes := []rune(l)
-	for i, sr := range s {
-		if lr := longerRunes[i]; sr != lr {
-			return comparePreReleaseSuffix(s[i:], l[i:])
+	for {
+		// compare dot separated identifiers from left to right
+		si, sRest, sMore := strings.Cut(s, ".")
+		li, lRest, lMore := strings.Cut(l, ".")
+		if si != li {
+			if c := comparePreReleaseIdent(si, li); c != 0 {
+				return c
+			}
 		}
+		if !sMore || !lMore {
+			// a larger set of identifiers has a higher precedence
+			switch {
+			case lMore:
+				return 1
+			case sMore:
+				return -1
+			}
+			return 0
+		}
+		s, l = sRest, lRest
 	}
-	if len(s) == len(l) {
-		return 0
+}
+
+func comparePreReleaseIdent(shorter string, longer string) int {
+	sn, ln := isNumeric(shorter), isNumeric(longer)
+	switch {
+	case sn && ln:
+		// numeric identifiers are compared numerically
+		shorter = strings.TrimLeft(shorter, "0")
+		longer = strings.TrimLeft(longer, "0")
+		if len(shorter) != len(longer) {
+			if len(shorter) < len(longer) {
+				return 1
+			}
+			return -1
+		}
+		return -strings.Compare(shorter, longer)
+	case sn:
+		// numeric identifiers have lower precedence than non-numeric ones
+		return 1
+	case ln:
+		return -1
 	}
-	return 1
+	i := 0
+	for i < len(shorter) && i < len(longer) && shorter[i] == longer[i] {
+		i++
+	}
+	return comparePreReleaseSuffix(shorter[i:], longer[i:])
+}
+
+func isNumeric(ident string) bool {
+	return ident != "" && digitsOrEmpty.MatchString(ident)
 }
 
 func comparePreReleaseSuffix(shorter string, longer string) int {
